@@ -308,6 +308,20 @@ func init() {
 	}
 	externals["github.com/cosmos/gogoproto/proto.Clone"] = protoClone
 	externals["github.com/golang/protobuf/proto.Clone"] = protoClone
+	for _, n := range []string{"strconv.FormatUint", "strconv.FormatInt", "strconv.Itoa", "strconv.AppendInt", "strconv.AppendUint", "strconv.FormatBool"} {
+		n := n
+		externals[n] = func(fr *frame, args []value) value {
+			for _, a := range args {
+				if isSymOrStr(a) {
+					if strings.HasPrefix(n, "strconv.Append") {
+						panic(unsupported(n + " of a symbolic integer"))
+					}
+					return fr.i.newSymStr(n)
+				}
+			}
+			return fallThrough{}
+		}
+	}
 	registerFmt()
 	registerErrors()
 }
